@@ -175,3 +175,55 @@ Qed.
 
 Corollary linb_false_not_linearizable : forall s cs, linb s cs = false -> ~ linearizable s cs.
 Proof. intros s cs H HL. apply linb_iff in HL. congruence. Qed.
+
+(* ================================================================== *)
+(** * B. what linearizability means for one artifact read *)
+
+Lemma legal_app : forall l1 l2 s, legal s (l1 ++ l2) <-> legal s l1 /\ legal (run_calls s l1) l2.
+Proof.
+  induction l1 as [|x l1 IH]; intros l2 s; simpl.
+  - unfold run_calls. simpl. tauto.
+  - unfold run_calls in *. simpl. rewrite IH. tauto.
+Qed.
+
+Lemma rt_ok_app_r : forall l1 l2, rt_ok (l1 ++ l2) -> rt_ok l2.
+Proof.
+  induction l1 as [|a l1 IH]; simpl; intros l2 H; auto.
+  apply rt_ok_cons in H. apply IH. tauto.
+Qed.
+
+(* Every artifact read of a linearizable history returns the from-scratch evaluation of ONE parameter state:
+   the state reached by a legal sequential execution [before] of other calls of the history -- and no call
+   that had responded before the read was invoked is missing from [before] (it is not ordered after the read). *)
+Theorem artifact_snapshot : forall s cs x f,
+  linearizable s cs -> In x cs -> c_op x = Artifact f ->
+  exists before after,
+    Permutation (before ++ x :: after) cs /\ legal s before /\
+    c_resp x = RArt (map (st_vals (run_calls s before)) f) /\
+    Forall (fun u => c_inv x < c_res u) after.
+Proof.
+  intros s cs x f [order [HP [HL HR]]] Hin Hop.
+  assert (Hx : In x order) by (eapply Permutation_in; [apply Permutation_sym; exact HP | exact Hin]).
+  apply in_split in Hx. destruct Hx as [l1 [l2 E]]. subst order.
+  exists l1, l2. apply legal_app in HL. destruct HL as [HL1 HL2]. simpl in HL2. destruct HL2 as [HL2 _].
+  rewrite Hop in HL2. simpl in HL2.
+  split; [exact HP|]. split; [exact HL1|]. split; [symmetry; exact HL2|].
+  apply rt_ok_app_r in HR. apply rt_ok_cons in HR. tauto.
+Qed.
+
+(* the same for a parameter read *)
+Theorem get_snapshot : forall s cs x p,
+  linearizable s cs -> In x cs -> c_op x = Get p ->
+  exists before after,
+    Permutation (before ++ x :: after) cs /\ legal s before /\
+    c_resp x = RGet (st_vals (run_calls s before) p) /\
+    Forall (fun u => c_inv x < c_res u) after.
+Proof.
+  intros s cs x p [order [HP [HL HR]]] Hin Hop.
+  assert (Hx : In x order) by (eapply Permutation_in; [apply Permutation_sym; exact HP | exact Hin]).
+  apply in_split in Hx. destruct Hx as [l1 [l2 E]]. subst order.
+  exists l1, l2. apply legal_app in HL. destruct HL as [HL1 HL2]. simpl in HL2. destruct HL2 as [HL2 _].
+  rewrite Hop in HL2. simpl in HL2.
+  split; [exact HP|]. split; [exact HL1|]. split; [symmetry; exact HL2|].
+  apply rt_ok_app_r in HR. apply rt_ok_cons in HR. tauto.
+Qed.
